@@ -236,6 +236,8 @@ def items(tier):
                             k1=c["k1"], k2=c["k2"], nof=nof, first=j, hist=words[j:j + g]))
     for w in range(len(DYAD_WORDS)):
         out.append(dict(kind="dyad", id="dyad-w%d" % w, word=w))
+    for cplx in (False, True):
+        out.append(dict(kind="nonfinite", id="nonfinite-concrete-%s" % ("cplx" if cplx else "real"), cplx=cplx))
     return out
 
 
@@ -658,7 +660,42 @@ def sc_dyad(V, P, cfg):
     return obs
 
 
-SCEN = {"hist": sc_hist, "dyad": sc_dyad}
+def sc_nonfinite_concrete(V, P, cfg):
+    """Concrete regression items (NOT a solver verdict; evidence kind `concrete-regression`): reset() of a kept allocation that
+    holds non-finite entries (a diverged back-propagation) leaves exact zeros; non-finite values are outside the exact-real
+    model of the symbolic items."""
+    import pymoto as pym
+    from .common import NumProver
+    Pn = P if P is not None else NumProver()
+    if V.symbolic:
+        from symx import npshim
+        npshim.uninstall()
+    try:
+        cplx = cfg.get("cplx", False)
+        vals = np.array([np.inf, np.nan, 1.5, -np.inf], dtype=complex if cplx else float)
+        res = {}
+        s1 = pym.Signal("a", np.ones(4, dtype=vals.dtype), sensitivity=vals.copy())
+        s1.reset(keep_alloc=True)
+        res["base-reset"] = s1.sensitivity
+        s2 = pym.Signal("b", np.ones(4, dtype=vals.dtype), sensitivity=vals.copy())
+        s2[1:3].reset()
+        res["slice-reset"] = None if s2.sensitivity is None else np.asarray(s2.sensitivity)[1:3]
+        s3 = pym.Signal("c", np.ones(4, dtype=vals.dtype))
+        s3.add_sensitivity(vals.copy())
+        s3.reset(keep_alloc=True)
+        res["added-then-reset"] = s3.sensitivity
+    finally:
+        if V.symbolic:
+            npshim.install()
+    obs = {}
+    for k, v in res.items():
+        ok = v is not None and np.all(np.asarray(v) == 0)
+        Pn.holds("nonfinite:%s-gives-exact-zeros" % k, bool(ok), kind="concrete-regression:non-finite")
+        obs[k] = float(bool(ok))
+    return obs
+
+
+SCEN = {"hist": sc_hist, "dyad": sc_dyad, "nonfinite": sc_nonfinite_concrete}
 
 
 def run_item(cfg, tier):
@@ -666,6 +703,8 @@ def run_item(cfg, tier):
     prime_inspect_cache()
     if cfg["kind"] == "dyad":
         return symbolic_run(sc_dyad, cfg, tier, max_paths=8)
+    if cfg["kind"] == "nonfinite":
+        return symbolic_run(sc_nonfinite_concrete, cfg, tier, max_paths=2, validate=False)
     return merge_discharged(symbolic_run(SCEN[cfg["kind"]], cfg, tier, max_paths=4))
 
 
@@ -685,6 +724,11 @@ def replay(cfg, label, env, case):
         from .common import NumProver
         P = NumProver()
         sc_dyad(Vals(env=env), P, cfg)
+        return P.verdict(label)
+    if cfg.get("kind") == "nonfinite":
+        from .common import NumProver
+        P = NumProver()
+        sc_nonfinite_concrete(Vals(env=env), P, cfg)
         return P.verdict(label)
     try:
         h = int(label.split("|")[0][1:])
